@@ -62,18 +62,39 @@ def _fmt(d, p):
     return " -> ".join([d["name"].get(p[0][0], str(p[0][0]))] + [d["name"].get(s[1], str(s[1])) for s in p]) if p else "(none)"
 
 
+MAX_REPORTS = 6   # per class of failure: one broken line of the path finder breaks hundreds of (known set, target) pairs
+
+
 def run(c):
+    nrep = {}
+    real_report = c.report
+
+    def report(key, what, replay=None, found_input=True):
+        cls = ":".join(key.split(":")[:2]) if key.startswith("paths:model:") or key.startswith("paths:conv:") else "paths"
+        nrep[cls] = nrep.get(cls, 0) + 1
+        if nrep[cls] <= MAX_REPORTS:
+            return real_report(key, what, replay, found_input)
+        return False
+    try:
+        return _run(c, report)
+    finally:
+        over = {k: v for k, v in nrep.items() if v > MAX_REPORTS}
+        if over:
+            c.notes.append("conversion table: failures reported in full only %d times per class; totals: %s" % (MAX_REPORTS, over))
+
+
+def _run(c, report):
     exe = c.cxx("convtable", ["convtable.cxx"], repo_sources=REPO_SOURCES)
     rc, out, err = c.run([exe], timeout=300)
     if rc != 0:
-        c.report("paths:driver", "convtable driver failed on /repo's conversion table: " + err[-500:], {"stderr": err[-3000:]}, False)
+        report("paths:driver", "convtable driver failed on /repo's conversion table: " + err[-500:], {"stderr": err[-3000:]}, False)
         return []
     d = _parse(out)
     flags, conv, nm = d["flags"], d["conv"], d["name"]
     N = lambda f: nm.get(f, "flag%d" % f)
     kname = lambda ks: "+".join(N(k) for k in ks)
     if not flags or not conv or not d["path"]:
-        c.report("paths:driver", "convtable driver printed no table", {"stdout": out[:3000]}, False)
+        report("paths:driver", "convtable driver printed no table", {"stdout": out[:3000]}, False)
         return []
     c.trusted("g++ compilation of mfront/src/FiniteStrainBehaviourTangentOperatorConversion{,Path}.cxx and the driver props/C23/convtable.cxx "
               "(prints the real table, the real paths and the requires-probe of the converter specialisations)",
@@ -83,30 +104,30 @@ def run(c):
               "re-implemented in the driver, not extracted from mfront")
     # ---- independent checks on the real output -------------------------------------------------------------
     if not d["probelist"]:
-        c.report("paths:probelist", "getFiniteStrainBehaviourTangentOperatorFlags() is not the list of enumerators probed by convtable.cxx "
+        report("paths:probelist", "getFiniteStrainBehaviourTangentOperatorFlags() is not the list of enumerators probed by convtable.cxx "
                  "(an enumerator was added or removed: update ALL[] in props/C23/convtable.cxx)", {"flags": [N(f) for f in flags]}, True)
     if len(set(flags)) != len(flags):
-        c.report("paths:flags:dup", "getFiniteStrainBehaviourTangentOperatorFlags() lists a flag twice", {"flags": [N(f) for f in flags]}, True)
+        report("paths:flags:dup", "getFiniteStrainBehaviourTangentOperatorFlags() lists a flag twice", {"flags": [N(f) for f in flags]}, True)
     if len(set(nm.values())) != len(nm):
-        c.report("paths:flags:names", "two flags have the same name", {"names": nm}, True)
+        report("paths:flags:names", "two flags have the same name", {"names": nm}, True)
     if len(set(conv)) != len(conv):
         c.notes.append("conversion table registers a pair twice: %s" % sorted({"%s->%s" % (N(f), N(t)) for (f, t) in conv if conv.count((f, t)) > 1}))
     for (f, t) in conv:
         key = "paths:conv:%s:%s" % (N(f), N(t))
         c.count(1, ("conv", f, t), True)
         if f not in flags or t not in flags or f == t:
-            c.report(key, "registered conversion %s -> %s does not join two distinct flags of the flag list" % (N(f), N(t)), {"from": f, "to": t}, True)
+            report(key, "registered conversion %s -> %s does not join two distinct flags of the flag list" % (N(f), N(t)), {"from": f, "to": t}, True)
             continue
         comp, hexe = d["spec"].get((f, t), (False, False))
         if not (comp and hexe):
-            c.report(key, "conversion %s -> %s is registered in mfront's table but FiniteStrainBehaviourTangentOperatorConverter<%s,%s> %s: "
+            report(key, "conversion %s -> %s is registered in mfront's table but FiniteStrainBehaviourTangentOperatorConverter<%s,%s> %s: "
                      "the generated behaviour would not compile" % (N(f), N(t), N(t), N(f), "is not defined" if not comp else "has no usable exe<3,double>"),
                      {"from": N(f), "to": N(t), "complete": comp, "exe": hexe}, True)
         for (inter, final) in d["code"][(f, t)]:
             mi = re.fullmatch(r"const auto tangentOperator_(\w+) = convert<(\w+),(\w+)>\(tangentOperator_(\w+),this->F0,this->F1,this->sig\);", inter)
             mf = re.fullmatch(r"this->Dt = convert<(\w+),(\w+)>\(tangentOperator_(\w+),this->F0,this->F1,this->sig\);", final)
             if not (mi and mi.groups() == (N(t), N(t), N(f), N(f)) and mf and mf.groups() == (N(t), N(f), N(f))):
-                c.report(key, "generated code of the conversion %s -> %s does not call convert<%s,%s> on tangentOperator_%s: %r / %r" % (
+                report(key, "generated code of the conversion %s -> %s does not call convert<%s,%s> on tangentOperator_%s: %r / %r" % (
                     N(f), N(t), N(t), N(f), N(f), inter, final), {"from": N(f), "to": N(t), "intermediate": inter, "final": final}, True)
     # the type of the operator named by the flag must be the one declared for the converter argument: checked by the exe probe
     # paths
@@ -139,7 +160,7 @@ def run(c):
         elif t in dist:
             bad = "no path returned although %s can be reached in %d registered conversions" % (N(t), dist[t])
         if bad:
-            c.report(key, "getShortestPath(getConversionsPath(.., {%s}, ..), %s) = %s: %s" % (kname(ks), N(t), _fmt(d, p), bad),
+            report(key, "getShortestPath(getConversionsPath(.., {%s}, ..), %s) = %s: %s" % (kname(ks), N(t), _fmt(d, p), bad),
                      {"known": [N(k) for k in ks], "target": N(t), "path": [[N(a), N(b)] for (a, b) in p]}, True)
         elif p and len(ks) == 1 and len(p) >= 3:
             c.sample({"known": kname(ks), "target": N(t), "real_code_path": _fmt(d, p)})
@@ -173,9 +194,9 @@ def run(c):
     # ---- model <-> code -------------------------------------------------------------------------------------------
     cases = ("From Coq Require Import List.\nImport ListNotations.\nFrom C23 Require Import C23PathModel C23_convtable_gen.\n"
              "Definition fuel := S (S (length flags)).\n"
-             "Eval vm_compute in (map (fun k => (k, match mfront_paths fuel converters k with Some ps => length ps | None => 999999 end,\n"
-             "   map (fun t => match mfront_path fuel converters k t with Some p => p | None => [(999999, 999999)] end) flags))\n"
-             "   (singletons flags ++ pairs_of flags)).\n")
+             "Eval vm_compute in (map (fun k => match mfront_paths fuel converters k with\n"
+             "   | Some ps => (k, length ps, map (fun t => get_shortest_path ps t) flags)\n"
+             "   | None => (k, 999999, []) end) (singletons flags ++ pairs_of flags)).\n")
     rc, mout, merr = c.coq_eval([COQ_MODEL, gen], cases)
     model = None
     if rc == 0:
@@ -186,7 +207,7 @@ def run(c):
             except (ValueError, SyntaxError):
                 model = None
     if model is None:
-        c.report("paths:model", "the Coq model of the path finder could not be evaluated: " + (merr or mout)[-500:], {"stderr": merr[-3000:]}, False)
+        report("paths:model", "the Coq model of the path finder could not be evaluated: " + (merr or mout)[-500:], {"stderr": merr[-3000:]}, False)
         return ["%s_from_%s" % (N(t), N(f)) for (f, t) in conv]
     ncmp = 0
     seen_sets = set()
@@ -195,19 +216,19 @@ def run(c):
         seen_sets.add(ks)
         npr = d["npaths"].get(ks)
         if npr != npm:
-            c.report("paths:model:%s:npaths" % kname(ks), "getConversionsPath enumerates %s paths from {%s}, the Coq model %s" % (npr, kname(ks), npm),
+            report("paths:model:%s:npaths" % kname(ks), "getConversionsPath enumerates %s paths from {%s}, the Coq model %s" % (npr, kname(ks), npm),
                      {"known": [N(k) for k in ks], "real": npr, "model": npm}, True)
         for t, pm in zip(flags, plist):
             pr = d["path"].get((ks, t))
             ncmp += 1
             c.count(1, ("model", ks, t), bool(pm))
             if pr is None or [tuple(s) for s in pm] != pr:
-                c.report("paths:model:%s:%s" % (kname(ks), N(t)), "real getShortestPath gives %s, the Coq model (C23PathModel.v) %s: the theorems do not speak "
+                report("paths:model:%s:%s" % (kname(ks), N(t)), "real getShortestPath gives %s, the Coq model (C23PathModel.v) %s: the theorems do not speak "
                          "about the code" % (_fmt(d, pr or []), _fmt(d, [tuple(s) for s in pm])),
                          {"known": [N(k) for k in ks], "target": N(t), "real": pr, "model": pm}, True)
     missing = set(k for (k, _) in d["path"]) ^ seen_sets
     if missing:
-        c.report("paths:model:sets", "the known sets of the driver and of the Coq model differ: %s" % sorted(missing), {"sets": sorted(missing)}, False)
+        report("paths:model:sets", "the known sets of the driver and of the Coq model differ: %s" % sorted(missing), {"sets": sorted(missing)}, False)
     c.notes.append("conversion paths: %d (known set, target) pairs of the real code checked by the Python statements, %d compared with the Coq model "
                    "(%d known sets: every single operator, every pair), path counts compared for every known set" % (nchecked, ncmp, len(model)))
     return ["%s_from_%s" % (N(t), N(f)) for (f, t) in conv]
